@@ -2700,8 +2700,8 @@ fn real_render(fmt: &str) -> Option<String> {
 }
 
 fn k_fmtopts(cx: &mut Ctx, drv: &mut Driver, rng: &mut Rng, n_random: usize) -> (u64, u64) {
-    let fills = ["", "_", "*", "0", " ", "é", "字", "😀", "🫶🏽", "e\u{301}", "x", "b", "?", "<", "^", ">", ".", "}", "-", "1", "9", "a"];
-    let aligns = ["", "<", "^", ">"];
+    let fills = ["", "_", "*", "0", " ", "é", "字", "😀", "🫶🏽", "e\u{301}", "x\u{304}", "1\u{20e3}", ".\u{301}", "x", "b", "?", "<", "^", ">", ".", "}", "-", "1", "9", "a"];
+    let aligns = ["", "<", "^", ">", "<\u{304}"];
     let widths = ["", "0", "1", "8", "08", "20", "007", "4294967295", "4294967296", "99999999999"];
     let precs = ["", ".0", ".3", ".12", ".", ".x", ".4294967296"];
     let reprs = ["", "?", "b", "o", "x", "X", "e", "E", "z", "xx"];
@@ -2736,8 +2736,10 @@ fn k_fmtopts(cx: &mut Ctx, drv: &mut Driver, rng: &mut Rng, n_random: usize) -> 
     let mut reqs = vec![];
     for c in &cases {
         if let Some(r) = real_fparse(c) {
-            let g1 = c.graphemes(true).next().map(|g| g.chars().count()).unwrap_or(0);
-            reqs.push(format!("fparse {} {}", g1, c.chars().map(|ch| (ch as u32).to_string()).collect::<Vec<_>>().join(" ")));
+            let mut gs = c.graphemes(true);
+            let g1 = gs.next().map(|g| g.chars().count()).unwrap_or(0);
+            let g2 = gs.next().map(|g| g.chars().count()).unwrap_or(0);
+            reqs.push(format!("fparse {} {} {}", g1, g2, c.chars().map(|ch| (ch as u32).to_string()).collect::<Vec<_>>().join(" ")));
             real.push((c.clone(), r));
         }
     }
